@@ -20,7 +20,7 @@ RULE = (
     "(i2d_EC_PUBKEY, i2d_ECPrivateKey, PKCS8, PEM_write_bio_*, EC_POINT_point2oct) is decoded by the library. cli: the same through /usr/bin/openssl (ec/pkey -text, ec -conv_form "
     "-param_enc, pkcs8 -topk8, ec -pubout) on PEM. bec2hdr: P-256 keys (searched leading-zero X/Y + Hypothesis scalars): VerifyingKey.to_der() equals libcrypto's i2d byte for byte "
     "and starts with the 27-byte header; the plug-in's create_from_raw_fmt / to_raw_bin_fmt / create_from_der_fmt / to_der_fmt are exact inverses against X||Y from libcrypto. "
-    "buffers: every binary decoder (point strings in all four forms with and without valid_encodings, PointJacobi.from_bytes, ECDH loaders, public/private DER over the grid, ECParameters, raw private string, the plug-in's raw loader) "
+    "Library-made PUBLIC keys with explicit parameters must write the curve's base point in the requested point form (04 / 02-03 / 06-07), whatever was encoded earlier in the process. buffers: every binary decoder (point strings in all four forms with and without valid_encodings, PointJacobi.from_bytes, ECDH loaders, public/private DER over the grid, ECParameters, raw private string, the plug-in's raw loader) "
     "is given each valid encoding in a bytearray, a memoryview of bytes and a memoryview of a bytearray: same key, caller's buffer unchanged; one-byte-short / one-byte-long / wrong-parity-hybrid encodings in the same containers are refused exactly as the bytes object is. "
     "trunc: EVERY proper prefix and EVERY one-byte extension (256 values) of every DER encoding (library- and libcrypto-made, whole grid, ECParameters) and of every point / private string "
     "(auto-detecting and single-encoding decoders) must raise a documented error. mutate: every single-byte mutation {00, FF, ^1, ^0x80, +1, -1}, deletion and duplication at every "
@@ -287,6 +287,23 @@ def as_text(b, flip):
     return bytes(b).decode("ascii") if flip else bytes(b)
 
 
+PARAMS_SEEN = set()
+
+
+def _explicit_base_point_prefix(der_b):
+    """first byte of the base-point OCTET STRING of the (first) explicit ECParameters in a DER structure, or None"""
+    def walk(nodes):
+        for tag, kids, content in nodes or ():
+            if tag == 0x30 and kids and len(kids) >= 5 and kids[0][0] == 0x02 and kids[0][2] == b"\x01" and kids[1][0] == 0x30 and kids[2][0] == 0x30 and kids[3][0] == 0x04:
+                return kids[3][2][:1]
+            r = walk(kids)
+            if r is not None:
+                return r
+        return None
+    r = walk(tlv_parse(der_b))
+    return r[0] if r else None
+
+
 def _params_form(cx, tag, dec, b, explicit, pem, der_of_same_options):
     """The encoding really carries the REQUESTED form of the curve parameters: a decoder restricted to that form (valid_curve_encodings)
     accepts it, one restricted to the other form refuses it, and a PEM is the base64 armour of the DER made with the same options."""
@@ -300,6 +317,19 @@ def _params_form(cx, tag, dec, b, explicit, pem, der_of_same_options):
         raise Violation("%s: decoding the library-made %s with valid_curve_encodings=[%r] raised %s: %s" % (cx.name, tag, other, type(e).__name__, e))
     else:
         raise Violation("%s: the library-made %s is accepted by a decoder restricted to %s parameters - it does not carry the requested %s form" % (cx.name, tag, other, mine))
+    if explicit and tag.startswith("public key") and any(x in ENC3 for x in tag.split(" ")[-1].split("/")):
+        # explicit parameters of a PUBLIC key carry the curve's BASE POINT as an octet string in the same form as requested for the key's point
+        # (VerifyingKey.to_der hands point_encoding on to Curve.to_der, and OpenSSL writes the same with -param_enc explicit -conv_form X) -
+        # whatever was encoded before.  (SigningKey.to_der always writes the base point uncompressed: not judged.)
+        enc = next(x for x in tag.split(" ")[-1].split("/") if x in ENC3)
+        der_b = bytes(LD.unpem(bytes(b))) if pem else bytes(b)
+        first = _explicit_base_point_prefix(der_b)
+        ok = {"uncompressed": (4,), "compressed": (2, 3), "hybrid": (6, 7)}.get(enc)
+        if ok is not None and first is not None and first not in ok:
+            raise Violation("%s: the library-made %s writes the base point of its explicit parameters with prefix %02x, the requested point encoding %s means %s" % (
+                cx.name, tag, first, enc, "/".join("%02x" % v for v in ok)))
+        if first is not None:
+            PARAMS_SEEN.add("explicit-base-point-form-checked")
     if pem:
         body = LD.unpem(bytes(b))
         want = bytes(call("%s: DER with the same options as the %s" % (cx.name, tag), der_of_same_options))
